@@ -98,9 +98,9 @@ def prop(pid, quick, thorough, bounds, explanation, level="model_checking", assu
 # ---------------- C12, C13: decided directly ----------------
 C12L = ["C12/"]
 prop("C12",
-     H(['vpH_q_MajCommit_5', 'vpH_q_MajCommit_sub4'], C12L, policies=[0, 1]) + H(['vpH_q_MajVote_5', 'vpH_q_MajVote_sub4'], C12L, policies=[0, 2]) + H(['vpH_q_JointCommit_3', 'vpH_q_JointVote_3'], C12L),
-     H(['vpH_q_MajCommit_9', 'vpH_q_MajCommit_sub4', 'vpH_q_MajVote_9', 'vpH_q_MajVote_sub4'], C12L, policies=[0, 1, 2]) + H(['vpH_q_JointCommit_4', 'vpH_q_JointVote_4'], C12L, policies=[0, 1]) + H(['vpH_t_TrackerCommitted_3', 'vpH_t_QuorumActive_3'], ["Q1/", "K4/"]),
-     "quick: single majority of size 0..5 (members 1..k) and arbitrary subsets of {1..4}, joint configs over arbitrary subsets of {1..3}; thorough: single majority of size 0..9 (crosses the >7 heap-allocation path), joint over subsets of {1..4}, ProgressTracker.Committed/QuorumActive over {1..3}. Acknowledged indexes: presence per id chosen, values unconstrained 64-bit; votes: presence chosen, value symbolic. Outside: n>9, Describe/String.",
+     H(['vpH_q_MajCommit_5', 'vpH_q_MajCommit_sub4'], C12L, policies=[0, 1]) + H(['vpH_q_MajVote_5', 'vpH_q_MajVote_sub4'], C12L, policies=[0, 2]) + H(['vpH_q_JointCommit_3', 'vpH_q_JointVote_3', 'vpH_q_MajCommit_8'], C12L),
+     H(['vpH_q_MajCommit_sub4', 'vpH_q_MajVote_9', 'vpH_q_MajVote_sub4'], C12L, policies=[0, 1, 2]) + H(['vpH_q_JointCommit_4', 'vpH_q_JointVote_4'], C12L, policies=[0, 1]) + H(['vpH_t_TrackerCommitted_3', 'vpH_t_QuorumActive_3'], ["Q1/", "K4/"]),
+     "quick: single majority of size 0..5 (members 1..k) and arbitrary subsets of {1..4}, joint configs over arbitrary subsets of {1..3}; both tiers: exactly 8 voters with acknowledged indexes restricted to 0..7 (crosses the >7 heap-allocation path of CommittedIndex; with unconstrained 64-bit values a single query at that size exceeds 60 s, and sizes 0..9 with unconstrained values do not finish in 400 s: outside the claim); thorough: VoteResult for single majorities of size 0..9, joint over subsets of {1..4}, ProgressTracker.Committed/QuorumActive over {1..3}. Acknowledged indexes: presence per id chosen, values unconstrained 64-bit; votes: presence chosen, value symbolic. Outside: n>9, Describe/String.",
      "CommittedIndex/VoteResult of MajorityConfig and JointConfig are executed symbolically from go/ssa and compared, on every path, with a specification formula (largest index acknowledged by a strict majority, missing=0, empty=MaxUint64, joint=min; Won/Lost/Pending by yes and yes+missing counts per half).",
      assumptions=["slices.Sort on []uint64 is modelled as an odd-even transposition network of unsigned compare-exchange terms (validated against the real library by native replay of sampled paths)"])
 
